@@ -81,10 +81,7 @@ Record mesh := mkMesh {
   m_apply_sidecars : bool;              (* serviceEntryVisibility.applyToSidecars *)
   m_root : string;                      (* RootNamespace *)
   f_unified : bool;                     (* features.UnifiedSidecarScoping *)
-  f_pick_best : bool;                   (* features.SidecarPickBestServiceNamespace *)
-  f_k3_fixed : bool                     (* collectImportedServices checks IsServiceVisible on the
-                                           same-namespace branch (candidate repair of K3); the code
-                                           as read has [false] *)
+  f_pick_best : bool                    (* features.SidecarPickBestServiceNamespace *)
 }.
 
 (* initDefaultExportMaps *)
@@ -416,7 +413,7 @@ Definition resolve_dest (m : mesh) (sorted : list service) (cfg : string) (hint 
     | None => None
     end in
   match hn_lookup sorted h cfg with
-  | Some s => if f_k3_fixed m then (if is_visible m s cfg then Some s else pick_other) else Some s
+  | Some s => if is_visible m s cfg then Some s else pick_other  (* /repo cba5e9c: K3 repaired *)
   | None => pick_other
   end.
 
@@ -580,3 +577,113 @@ Definition host_imports (cfg : string) (hosts : list string) (h sn : string) : b
 Definition vs_visible_spec (m : mesh) (cfg : string) (v : vsvc) : bool :=
   let e := match v_export v with [] => default_of (m_vs_default m) | e => e end in
   v_mesh v && (mem "*" e || (negb (mem "~" e) && ((mem "." e && String.eqb (v_ns v) cfg) || mem cfg e))).
+
+(* ------------------------------------------------------------------ DestinationRules (push_context.go setDestinationRules,
+   destination_rule.go mergeDestinationRule with EnableEnhancedDestinationRuleMerge, PushContext.destinationRule).
+   Rules without workloadSelector; only names (the "from" lists) and exportTo are modelled, not rule contents. *)
+Record drule := mkDr { d_name : N; d_ns : string; d_host : string; d_export : list string; d_ctime : N }.
+(* ConsolidatedDestRule: exportTo of the first rule, names of every rule merged into it *)
+Record mdr := mkMdr { md_export : list string; md_from : list (string * N) }.
+
+Fixpoint insert_dr (v : drule) (l : list drule) : list drule :=
+  match l with
+  | [] => [v]
+  | x :: r => if N.leb (d_ctime v) (d_ctime x) then v :: x :: r else x :: insert_dr v r
+  end.
+(* sortConfigBySelectorAndCreationTime (creation times unique in the harness) *)
+Definition sort_drs (l : list drule) : list drule := fold_right insert_dr [] l.
+
+Definition dr_eset (d : drule) : list string := dedup (d_export d).
+
+(* mergeDestinationRule, the loop over the consolidated rules of one host; returns the updated list
+   and appendSeparately *)
+Fixpoint merge_loop (d : drule) (l : list mdr) (sep : bool) : list mdr * bool :=
+  match l with
+  | [] => ([], sep)
+  | x :: r =>
+    let e := dr_eset d in
+    let eq := eq_set e (md_export x) in
+    let sup := match md_export x with [] => false | _ => forallb (fun k => mem k e) (md_export x) end in
+    if eq || sup then
+      (* merged; both rules are without selector: appendSeparately := false *)
+      let '(r', s') := merge_loop d r false in
+      (mkMdr (md_export x) (md_from x ++ [(d_ns d, d_name d)]) :: r', s')
+    else
+      let '(r', s') := merge_loop d r true in (x :: r', s')
+  end.
+Definition merge_dr (l : list mdr) (d : drule) : list mdr :=
+  match l with
+  | [] => [mkMdr (dr_eset d) [(d_ns d, d_name d)]]
+  | _ => let '(l', sep) := merge_loop d l true in
+         if sep then l' ++ [mkMdr (dr_eset d) [(d_ns d, d_name d)]] else l'
+  end.
+
+(* setDestinationRules: which index a rule goes to *)
+Definition dr_local (d : drule) : bool :=
+  let e := dr_eset d in
+  match e with [] => true | _ => mem "*" e || mem "." e || mem (d_ns d) e end.
+Definition dr_private_only (m : mesh) (d : drule) : bool :=
+  let e := dr_eset d in
+  match e with
+  | [] => mem "." (default_of (m_dr_default m))
+  | [k] => String.eqb k "." || String.eqb k (d_ns d)
+  | _ => false
+  end.
+Definition dr_exported (m : mesh) (d : drule) : bool := negb (dr_private_only m d).
+Definition dr_root_local (m : mesh) (d : drule) : bool :=
+  dr_private_only m d && String.eqb (d_ns d) (m_root m).
+
+(* one index (selected by [pred]) restricted to namespace [ns]: its hosts and the consolidated list of a host *)
+Definition idx_rules (pred : drule -> bool) (drs : list drule) (ns : string) : list drule :=
+  filter (fun d => pred d && String.eqb (d_ns d) ns) (sort_drs drs).
+Definition idx_list (pred : drule -> bool) (drs : list drule) (ns h : string) : list mdr :=
+  fold_left merge_dr (filter (fun d => String.eqb (d_host d) h) (idx_rules pred drs ns)) [].
+
+(* MostSpecificHostMatch over the hosts of an index *)
+Definition longest_wild (needle_tail : string) (hosts : list string) : option string :=
+  fold_left (fun best h =>
+    if is_wild h && has_suffix needle_tail (tl1 h) then
+      match best with
+      | Some b => if Nat.ltb (String.length b) (String.length h) then Some h else Some b
+      | None => Some h
+      end
+    else best) hosts None.
+Definition most_specific (needle : string) (hosts : list string) : option string :=
+  if mem needle hosts then Some needle
+  else longest_wild (if is_wild needle then tl1 needle else needle) hosts.
+
+Definition idx_match (pred : drule -> bool) (drs : list drule) (ns needle : string) : option (list mdr) :=
+  match most_specific needle (map d_host (idx_rules pred drs ns)) with
+  | Some h => Some (idx_list pred drs ns h)
+  | None => None
+  end.
+
+(* getExportedDestinationRuleFromNamespace *)
+Definition exported_from (m : mesh) (drs : list drule) (owner needle client : string) : list mdr :=
+  match idx_match (dr_exported m) drs owner needle with
+  | Some l => filter (fun x => match md_export x with [] => true | e => mem "*" e || mem client e end) l
+  | None => []
+  end.
+
+(* PushContext.destinationRule (service with a namespace) *)
+Definition destination_rule (m : mesh) (drs : list drule) (proxy_ns svc_ns svc_host : string) : list mdr :=
+  let tier34 :=
+    match exported_from m drs svc_ns svc_host proxy_ns with
+    | (_ :: _) as l => l
+    | [] => exported_from m drs (m_root m) svc_host proxy_ns
+    end in
+  if negb (String.eqb proxy_ns (m_root m)) then
+    match idx_match dr_local drs proxy_ns svc_host with
+    | Some l => l
+    | None => tier34
+    end
+  else
+    match idx_match (dr_root_local m) drs (m_root m) svc_host with
+    | Some l => l
+    | None => tier34
+    end.
+
+(* specification: a DestinationRule is exported to the client namespace *)
+Definition dr_visible_spec (m : mesh) (d : drule) (client : string) : bool :=
+  let e := match d_export d with [] => default_of (m_dr_default m) | e => e end in
+  mem "*" e || (mem "." e && String.eqb (d_ns d) client) || mem client e.
